@@ -81,6 +81,7 @@ func init() {
 		RuleRegistry(r, c, []string{"responses"}, aspectSet{"L6": true})
 		RuleAPI(r, p, declareAPI(r, []string{"A0", "A3"}, map[string]int{"A3": 60, "A0": 0}), nil)
 		RuleTransport(r, p, aspectSet{"T5": true, "T11": true})
+		RuleReadBuffers(r, p)
 	}
 
 	checks["C04"] = func(r *Report, p *Program, tier string) {
@@ -138,7 +139,7 @@ func init() {
 		r.Explanation = "Decides the structural guarantees the property rests on: every variable captured by a goroutine and written on one side is accessed on the other only under a common mutex or is of a channel/sync/atomic type (T8, all go statements of the library); a connection never escapes the call that opened it, so replies cannot cross between calls (T9); the process-wide lock is taken exactly for fixed bind ports, before the socket is opened, and released by a deferred unlock (T3); the clock feeding each deadline is read after the lock is acquired, so a call that waited its turn still gets a full timeout (T4); the client configuration and package-level state are read-only at run time (IM1, G1). Not decided: absence of races in general (no whole-program may-happen-in-parallel analysis; sync and net internals trusted), nor any schedule-dependent outcome."
 		r.Assumptions = []string{"sync.Mutex, channels and package net are correct", "go/ssa is faithful"}
 		RuleShare(r, p, aspectSet{"T8": true})
-		RuleTransport(r, p, aspectSet{"T3": true, "T4": true, "T9": true})
+		RuleTransport(r, p, aspectSet{"T3": true, "T4": true, "T9": true, "T10": true, "T12": true})
 		RuleImmutable(r, p)
 		RuleG1(r, p)
 	}
@@ -158,6 +159,7 @@ func init() {
 			return
 		}
 		RuleListen(r, p)
+		RuleReadBuffers(r, p)
 		RuleK4(r, c)
 		RuleEventLayout(r, c)
 		RuleF4(r, p)
@@ -170,6 +172,7 @@ func init() {
 		only := map[string]bool{"GetDevices": true}
 		RuleAPI(r, p, declareAPI(r, []string{"A0", "A2", "A3", "A4", "A6"}, map[string]int{"A0": 0, "A3": 2, "A4": 0}), only)
 		RuleBroadcastHelper(r, p)
+		RuleReadBuffers(r, p)
 		RuleShareIn(r, p, aspectSet{"T8": true, "T7": true}, func(parent string) bool { return returnsListName(p, parent) })
 		RuleR3(r, p)
 	}
